@@ -267,3 +267,38 @@ func init() {
 		Real: e1Real, Stub: append([]string{"goroutine scheduling inside the brokers: the simulator's PRNG over parked goroutines (DESIGN 2.1b)"}, e1Stub...),
 		Assume: []string{"a subscription whose SUBSCRIBE was sent but not yet acknowledged when a publish was sent (or whose UNSUBSCRIBE was on its way) may or may not receive it", "fault-free network"}})
 }
+
+// ---------------------------------------------------------------------------------------
+// "sched" variants: the scenarios and oracles of other E1 checks, unchanged, executed under
+// controlled goroutine scheduling (DESIGN 2.1b). The properties do not depend on how the
+// brokers' goroutines interleave, so the same judges apply; what changes is that the order of
+// the goroutines inside a driver turn (handlers, publish workers, RPC calls, sweeps, gossip
+// merges) is drawn from the simulator's PRNG statement by statement instead of being whatever
+// the Go runtime does.
+
+func schedGen(base func(r *Rand, tier, profile string) *Case) func(r *Rand, tier, profile string) *Case {
+	return func(r *Rand, tier, profile string) *Case {
+		c := base(r, tier, profile)
+		if c.Knobs == nil {
+			c.Knobs = map[string]int64{}
+		}
+		c.Knobs["sched"] = 1
+		return c
+	}
+}
+
+func registerSched(id string, base func(r *Rand, tier, profile string) *Case, run func(t *testing.T, c *Case) *Outcome, quickS, thoroughS int) {
+	register(&Check{ID: id, Variant: "sched", Level: "exploration", Build: "lockstep", Gen: schedGen(base), Run: run, QuickS: quickS, ThoroughS: thoroughS,
+		Rule: "the scenarios and oracle of the property's main E1 check executed on the statement-instrumented build under controlled goroutine scheduling: every broker goroutine (handlers, publish workers, RPC calls, sweeps, gossip merges) is released by the simulator's PRNG one statement or one budget of statements at a time; distinct by hash of (scenario, schedule)",
+		Real: e1Real, Stub: append([]string{"goroutine scheduling inside the brokers: the simulator's PRNG over parked goroutines (DESIGN 2.1b)"}, e1Stub...),
+		Assume: []string{"same assumptions as the property's main E1 check"}})
+}
+
+func init() {
+	registerSched("C03", genC03, runC03, 15, 240)
+	registerSched("C05", genC05, runC05, 15, 240)
+	registerSched("C11", genC11, runC11, 15, 240)
+	registerSched("C12", genC12, runC12, 15, 240)
+	registerSched("C13", genC13, runC13, 15, 240)
+	registerSched("C14", genC14, runC14, 15, 240)
+}
